@@ -56,7 +56,7 @@ def gen_index(i: int, seed: int, tier: str) -> dict[str, Any]:
                        # own address changing as after a tunnel reconnect)
                        "src_i": rng.randrange(3), "src_via": rng.choice(["explicit", "current"])})
     faulty = rng.random() < 0.4
-    return {"seed": seed, "tier": "S", "config": {"batch": 1},
+    return {"seed": seed, "tier": "S", "config": {"batch": 1, "handoff_failures": rng.random() < 0.3},
             "frames": frames, "fault_policy": {"dup": 0.2, "delay": 0.2, "delays": [0.003, 0.05], "dup_delays": [0.001, 0.1],
                              "corrupt": 0.15} if faulty else None,
             "ops": []}
@@ -119,6 +119,11 @@ def run(plan: dict[str, Any]) -> dict[str, Any]:
         def on_send(raw, rec):
             to_bus(bytes((W.L_DATA_IND,)) + raw[1:])
         tx.stub.on_send = on_send
+        if plan["config"].get("handoff_failures"):
+            # the frame goes out (and is heard on the bus) but its hand-off fails all the same - e.g. the tunnel lost the
+            # acknowledgements: the next secured frame of that instance must still be accepted
+            frng = random.Random(plan["seed"] ^ 0xFA11)
+            tx.stub.pick = lambda raw, i: ({"lat": 0.002, "out": "comm_error_sent"} if frng.random() < 0.2 else None)
         for f in plan["frames"]:
             ln = f["len"]
             dst = rng.choice([ga, ga2])
